@@ -3,6 +3,7 @@
 #ifndef TETL_UTILITY_FORWARD_HPP
 #define TETL_UTILITY_FORWARD_HPP
 
+#include <etl/_type_traits/is_lvalue_reference.hpp>
 #include <etl/_type_traits/remove_reference.hpp>
 
 namespace etl {
@@ -23,6 +24,7 @@ constexpr auto forward(remove_reference_t<T>& param) noexcept -> T&&
 template <typename T>
 constexpr auto forward(remove_reference_t<T>&& param) noexcept -> T&&
 {
+    static_assert(not is_lvalue_reference_v<T>, "an rvalue cannot be forwarded as an lvalue");
     return static_cast<T&&>(param);
 }
 
